@@ -95,6 +95,10 @@ def gen(tier, rng, shard, nshards):
                             "Triangular", "Identity", "general-lower", "general-upper", "general-absorbing", "general-blockdiag"])
         n = int(rng.integers(1, 9)) if rng.random() < 0.75 else int(S.pick(rng, [12, 20, 30] + ([50, 80] if tier == "thorough" else [])))
         unit = float(S.pick(rng, [1.0, 1.0, 1.0, 1e-8, 1e8])) if kind in ("herm-definite", "herm-indefinite", "general", "Diagonal", "general-blockdiag") else 1.0
+        extreme = kind in ("herm-definite", "herm-indefinite", "general", "Diagonal") and rng.random() < 0.08
+        if extreme:
+            # units in which |lambda|^2 leaves the floating range while |lambda| does not (ordering by magnitude must not square)
+            unit = float(S.pick(rng, [1e-170, 1e-200, 1e160]))
         node = gen_matrix(rng, kind, n, dt, unit)
         k = int(rng.integers(1, n + 1)) if rng.random() < 0.8 else n
         which = S.pick(rng, ["LM", "SM"])
@@ -105,6 +109,8 @@ def gen(tier, rng, shard, nshards):
             alg = S.pick(rng, [OMIT, "Auto", "Eig", "Eig", "Arnoldi", "Arnoldi", "PowerIteration"])
         else:
             alg = S.pick(rng, [OMIT, "Auto", "Eig", "Arnoldi"])
+        if extreme and kind != "Diagonal":
+            alg = S.pick(rng, ["Eigh", "Eig"] if herm else ["Eig"])  # (the dense algorithms; Krylov inner products would square the unit)
         if alg == "PowerIteration":
             k, which = 1, "LM"
         cap = S.pick(rng, ["n", "n+4", "default"])
@@ -116,7 +122,7 @@ def gen(tier, rng, shard, nshards):
             node = gen_matrix(rng, kind, n, dt, float(S.pick(rng, [1e-8, 1e-8, 1e8])))
             alg = S.pick(rng, [OMIT, "Auto", "PowerIteration"])
         yield {"spec": node, "kind": kind, "k": k, "which": which, "alg": alg, "cap": cap, "fn": S.pick(rng, ["eig", "eig", "eig", "eigmax", "eigmin"]), "reuse": bool(rng.random() < 0.3),
-               "prime": S.pick(rng, [None, None, None, "shifted", "squared"])}
+               "prime": S.pick(rng, [None, None, None, "shifted", "squared"]) if not extreme else None}
 
 
 def make_alg(case, n):
